@@ -762,6 +762,8 @@ func (f *frame) execConvert(x *ssa.Convert, g Term, st *State) error {
 			fr := vc.declare("strbytes", ArraySort(SInt, SInt))
 			vc.setHeap(st, vc.byteKind(), Store(h, obj, fr))
 			f.set(x, MkSlice(obj, IntLit(0), ln, ln))
+			// converting the bytes back gives the string again
+			vc.assume(g, Eq(vc.strOf(st, f.vals[x]), v))
 		} else {
 			f.setFresh(x, g, st.Alloc)
 		}
